@@ -34,10 +34,11 @@ Lemma toy_detect_enc : forall p, toy_good p ->
       detect_impl (takeN k (toy_enc p)) =
       if k <? h then DetNeedMore else DetLen (len (toy_enc p)) (type_code (ptype_of p)).
 Proof.
+  assert (LE : forall a b : N, (a <=? b) = true -> a <= b) by (intros a b; apply N.leb_le).
   intros p [->|[->|[->| ->]]].
-  1-3: exists 2; repeat split; try (vm_compute; discriminate);
+  1-3: exists 2; (split; [apply LE; reflexivity|]); (split; [apply LE; reflexivity|]); (split; [apply LE; reflexivity|]);
        intros k H1 H2; assert (k = 2) by lia; subst k; vm_compute; reflexivity.
-  exists 3. repeat split; try (vm_compute; discriminate).
+  exists 3. split; [apply LE; reflexivity|]. split; [apply LE; reflexivity|]. split; [apply LE; vm_compute; reflexivity|].
   intros k H1 H2. assert (k = 2 \/ k = 3) as [-> | ->] by lia; vm_compute; reflexivity.
 Qed.
 
@@ -45,4 +46,4 @@ Lemma toy_decode_enc : forall p, toy_good p -> toy_decode (type_code (ptype_of p
 Proof. intros p [->|[->|[->| ->]]]; vm_compute; reflexivity. Qed.
 
 Lemma toy_all_good : Forall toy_good [toy_big; Pingreq; Puback 7; Disconnect].
-Proof. repeat constructor; unfold toy_good; auto. Qed.
+Proof. unfold toy_good. constructor; [auto|]. constructor; [auto|]. constructor; [auto|]. constructor; [auto|constructor]. Qed.
